@@ -96,7 +96,7 @@ func (p *parser) parse() (e *expr.Expression, err error) {
 						implAnd := lex.Token{Typ: lex.TAnd, Val: "AND"}
 						// act as if we just saw an AND and check if we need to reduce the
 						// current token stack first.
-						if !p.shouldShift(implAnd) {
+						for !p.shouldShift(implAnd) {
 							err = p.reduce()
 							if err != nil {
 								return e, err
